@@ -243,6 +243,37 @@ func c04Offer(world *ledger.World, n *ledger.Node, m *mutant, state string) {
 	}
 }
 
+// c04Propose: the transaction of a mutant handed to the ledger's own sealing entry (CreateLeaf, what the notary calls
+// after its own checks). Judged only when the transaction itself was altered in a signed field and is not simply
+// another valid transaction (the whole transaction of the other base vertex, or a countersigned one with the receiver's
+// signature taken off, which is a valid issuer-signed transaction for the ledger).
+func c04Propose(world *ledger.World, n *ledger.Node, m *mutant, base, other *accountant.Vertex) {
+	t, bt := &m.v.Transaction, &base.Transaction
+	same := func(a, b *transaction.Transaction) bool {
+		return a.Hash == b.Hash && bytes.Equal(ledger.TrxMessage(a), ledger.TrxMessage(b)) && bytes.Equal(a.IssuerSignature, b.IssuerSignature) && a.IssuerAddress == b.IssuerAddress && a.ReceiverAddress == b.ReceiverAddress
+	}
+	if same(t, &other.Transaction) {
+		return
+	}
+	if same(t, bt) && (bytes.Equal(t.ReceiverSignature, bt.ReceiverSignature) || len(t.ReceiverSignature) == 0) {
+		return
+	}
+	before := n.Prev
+	tt := *t
+	v, err := world.Propose(n, &tt, "transaction of mutant "+m.class)
+	world.EvalFor("C04", 1)
+	world.Res.Count("c04_mutant_transactions_offered_for_sealing", 1)
+	world.NontrivFor("C04", m.class+"/propose")
+	if err == nil {
+		world.Violate("C04", "accepted/propose/"+m.class, fmt.Sprintf("a transaction altered by [%s] was sealed by the node (vertex %s)", m.desc, ledger.Hex(v.Hash)))
+		return
+	}
+	after := n.Prev
+	if !n.BackgroundMayAct(before) && !n.BackgroundMayAct(after) && before.Digest() != after.Digest() {
+		world.Violate("C04", "rejected-but-ledger-changed/propose/"+m.class, fmt.Sprintf("a transaction altered by [%s] was refused (%v) but the ledger changed: %s", m.desc, err, ledger.DigestDiff(before, after)))
+	}
+}
+
 // c04Service: the same mutation engine on transactions that enter a whole node (notary, gossip, awaiting cache, real
 // ledger) as awaiting contracts or proposals: through gossip.GossipTrx and notary.Propose. An altered transaction must
 // leave neither the ledger nor the awaiting lists changed - whatever the handler answers (a repeated hash is answered
@@ -660,6 +691,7 @@ func c04Worker(w *core.WorkerCtx) {
 		for mi := range muts {
 			m := &muts[mi]
 			c04Offer(world, fresh, m, "knows the parents but never saw the original")
+			c04Propose(world, fresh, m, &base, &other)
 			c04Offer(world, holder, m, "already holds the original")
 			c04Offer(world, parker, m, "has the original parked and its parent admitted")
 		}
